@@ -15,8 +15,10 @@ Range(s) == {s[i] : i \in DOMAIN s}
 (* ---------------------------------------------------------------- retention *)
 
 \* older than the retention days.  ageh is the age in hours of the time the backup's NAME carries;
-\* c.slack (hours) is subtracted first.  The driver uses slack 0 for both rules: a backup named by
-\* a date D counts as old as the start of D, the most permissive reading of "older than".
+\* c.slack (hours) is subtracted first: 0 for timestamp names (size rule: the name is the moment
+\* the file was started, every record in it is younger, but the statement's "older than" is read
+\* off the name), 24 for date names (daily rule): a backup named by a date D holds records up to
+\* the END of D, so it is older than N days only if the end of D lies N days back.
 Older(c, b) == c.days > 0 /\ b.ageh - c.slack >= 24 * c.days
 
 \* not among the newest maxBackups backups (size rule only)
